@@ -1,14 +1,14 @@
 SPECIFICATION Spec
 CONSTANTS
-  Actors = {"p", "c", "g"}
+  Actors = {"p", "c", "g", "q"}
   NoA = "none"
-  InitSup <- SupPC
-  InitSt <- StRun
+  InitSup <- SupChain
+  InitSt <- StDrainG
   InitMayExit = {"p", "c"}
-  LinkOps <- Link3
-  UnlinkOps <- Unlink3
+  LinkOps <- LinkBig
+  UnlinkOps <- UnlinkBig
   KillOps = {"p", "c"}
-  DrainOps = {"c", "g"}
+  DrainOps = {"c", "p"}
   MaxEnv = 2
   AllowDev = FALSE
 INVARIANTS
